@@ -23,6 +23,10 @@ CHECKS = {
    text="Seeded exploration of hash epochs (SipHash keys of every std HashMap via a getrandom seam) x source-file creation/discovery order x thread-pool width x histories on one Project / one CodeGenerator, over generated multi-module projects and the dependency-free acceptance projects; every shipped or displayed observable is compared byte for byte with a reference build (fixed epoch, sorted order, one thread, fresh compiler per operation). Sampling, not proof.",
    note="Trusted: the reference build itself; the getrandom seam reaching every RandomState; rayon's real scheduler on width>1 steps (oracle is equality with the sequential reference, so it cannot false-alarm).",
    technique="deterministic simulation: seeded hash-order, discovery-order, pool-width and compiler-instance-history exploration vs reference build"),
+ "C17": dict(engine="sim-sched", category="exploration", design_ref="DESIGN.md §4 C17",
+   text="Seeded exploration of test-run schedules: the executor seam hands the real tests to 1-16 simulator-owned worker threads in a seeded assignment and order (one released at a time, exactly replayable), plus rayon's real scheduler at widths 2-16; results and result order are compared with the one-at-a-time run, and at every hand-off an ownership audit walks every Rc reachable from every test (no allocation shared between tests, none held from outside the test's own graph, no typed assertion attached). Sampling of schedules; the ownership invariant is decided exactly for every test set explored.",
+   note="Trusted: the audited set is what a worker touches on this tree (programs, fuzzer/sampler programs, assertion); tests interleave at whole-test granularity; rayon leg is uncontrolled but its oracle cannot false-alarm.",
+   technique="deterministic simulation: controlled executor schedules (seeded worker assignment/order) + Rc-ownership invariant at the thread hand-off seam"),
  "C05": dict(engine="sim-budget", category="exploration", design_ref="DESIGN.md §4 C05",
    text="Seeded exploration of batching interval x budget-exhaustion point x (language, protocol, cost vector) over the whole upstream conformance corpus plus generated loop programs, against the unbatched execution as reference model and the upstream golden budgets (v3). Sampling, not proof: it decides batching independence and the succeed-iff-cost<=budget rule on everything explored.",
    note="Trusted: the machine under slippage 1 as the unbatched reference; upstream .budget.expected files for the v3 corpus; the harness's parser of tests/conformance.rs for the ledger vectors.",
